@@ -25,3 +25,6 @@ globals()["nested_inner_catch_retry_task"]._vf.tiers = ("thorough",)   # 1665 sc
 more.register(globals(), {"C03"}, ["map_in_map"], {"map_in_map": [("_o%d" % k, "omc == %d" % k) for k in range(3)]})
 
 more.register(globals(), {"C03"}, ["fanout_loop", "map_retry_batches"])
+
+import s2_found as found
+found.register(globals(), {"C03"}, ["empty_map_in_branch", "caught_then_outer_fails", "three_levels", "inner_join_failure", "raw_start_events"])
